@@ -160,10 +160,14 @@ func sizeIsSmall(f *FuncInfo, k *KindEnv, e ast.Expr, depth int) (bool, string) 
 		}
 		if id, ok := e.(*ast.Ident); ok && depth > 0 {
 			o := ObjOf(info, id)
+			if v, ok := o.(*types.Var); ok && f.Prog.isParam(v) {
+				// a parameter labelled wire got that from an argument: its assignments inside the function do not replace what came in
+				return false, types.ExprString(e)
+			}
 			var defs []ast.Expr
 			for g := f; g != nil; g = g.Parent {
 				InspectNoLits(g.Body, func(nd ast.Node) bool {
-					if as, ok := nd.(*ast.AssignStmt); ok && len(as.Lhs) == len(as.Rhs) {
+					if as, ok := nd.(*ast.AssignStmt); ok && len(as.Lhs) == len(as.Rhs) && (as.Tok == token.ASSIGN || as.Tok == token.DEFINE) {
 						for i, l := range as.Lhs {
 							if ObjOf(g.Info(), l) == o {
 								defs = append(defs, as.Rhs[i])
